@@ -20,4 +20,4 @@ def check(run):
                 "Non-trivial = untrusted peers sending forwarding headers.")
     run.extra["driver_summary"] = s
     run.extra["violations_by_check"] = dict(collections.Counter(v["check"] for v in run.violations))
-    run.assumptions = ["at most one scheme-carrying header per request", "IPs() is not asserted", "peer addresses are canonical (v4-mapped forms not generated)"]
+    run.assumptions = ["at most one scheme-carrying header per request", "IPs() is not asserted", "v4 peers are presented in the 4-byte and in the 16-byte (v4-mapped) address form with the same expectation"]
